@@ -361,6 +361,8 @@ def check_case(ctx, c, report=True):
     exact = c.get("mode") != "true"
     if c["kind"] == "fprec":
         return check_fprec(ctx, c, report)
+    if c["kind"] == "alias":
+        return check_alias(ctx, c, report)
     if c["kind"] == "ham":
         out, e = impl_ham(c)
         ref = [complex(x) for x in ref_ham(c, e)]
@@ -532,6 +534,173 @@ def check_fprec(ctx, c, report=True):
 
 
 
+# ------------------------------------------------------------------------------------------------
+# aliasing / purity oracle: the SAME operator object applied several times, all results kept and compared with the
+# dense reference only AFTER all applications; nested applications; inputs must stay bit-identical; results must not
+# share storage with each other, with the inputs, or with tensors held by the operator object.
+ALIAS_TOL = 1e-10
+
+
+def gen_alias_case(rng, N, real_path):
+    c = gen_common(rng, N)
+    if not any(c["omega"]):
+        c["omega"][rng.randrange(N)] = rng.choice([-3, 2, 5])
+    D = 2 ** N
+    c.update({"kind": "alias", "real_path": real_path,
+              "phis": [0.0] * N if real_path else [rng.uniform(-3, 3) for _ in range(N)],
+              "vecs": [[_gi(rng, 5) for _ in range(D)] for _ in range(3)],
+              "Ls": [[[_gi(rng, 2), _gi(rng, 2)], [_gi(rng, 2), _gi(rng, 2)]] for _ in range(rng.randint(1, 2))],
+              "mm_op": [[_gi(rng, 4), _gi(rng, 4)], [_gi(rng, 4), _gi(rng, 4)]]})
+    if N <= 4:
+        rhos = []
+        for _ in range(2):
+            A = [[_gi(rng, 3) for _ in range(D)] for _ in range(D)]
+            rhos.append([[[A[r][k][0] + A[k][r][0], A[r][k][1] - A[k][r][1]] for k in range(D)] for r in range(D)])
+        c["rhos"] = rhos
+    else:
+        c["rhos"] = None
+    return c
+
+
+def _storage_ptr(t):
+    try:
+        return t.untyped_storage().data_ptr()
+    except Exception:
+        return t.data_ptr()
+
+
+def _obj_tensors(obj):
+    import torch
+    out = {}
+    for k, v in vars(obj).items():
+        if isinstance(v, torch.Tensor) and v.numel() > 0:
+            out[k] = v
+        elif isinstance(v, (list, tuple)):
+            for i, x in enumerate(v):
+                if isinstance(x, torch.Tensor) and x.numel() > 0:
+                    out[f"{k}[{i}]"] = x
+    return out
+
+
+def check_alias(ctx, c, report=True):
+    import numpy as np
+    import torch
+    import emu_sv.hamiltonian as hm
+    import emu_sv.lindblad_operator as lo
+    from emu_sv import time_evolution as te
+    from emu_sv.state_vector import StateVector
+    from emu_base.math.matmul import matmul_2x2_with_batched
+    from emu_base import compute_noise_from_lindbladians
+    N, D = c["N"], 2 ** c["N"]
+    problems = []
+
+    def bad(what):
+        problems.append(what)
+
+    def run_family(name, apply, inputs, ref, holder=None, nested=True):
+        """apply(x) -> tensor; inputs: list of tensors; ref(np array) -> np array."""
+        saved = [x.clone() for x in inputs]
+        outs = []
+        for i, x in enumerate(inputs):
+            try:
+                outs.append(apply(x))
+            except Exception as ex:  # noqa: BLE001
+                bad(f"{name}: application #{i} raised {type(ex).__name__}: {str(ex)[:120]}")
+                return
+        nest = None
+        if nested:
+            try:
+                nest = apply(apply(inputs[0]))
+            except Exception as ex:  # noqa: BLE001
+                bad(f"{name}: nested application op(op(x)) raised {type(ex).__name__}: {str(ex)[:120]}")
+        # --- only now compare
+        for i, (x, x0) in enumerate(zip(inputs, saved)):
+            if not torch.equal(x, x0):
+                bad(f"{name}: input #{i} was modified in place")
+        refs = [ref(x0.numpy()) for x0 in saved]
+        for i, (o, r) in enumerate(zip(outs, refs)):
+            sc = max(1.0, float(np.max(np.abs(r))))
+            if tuple(o.shape) != r.shape or float(np.max(np.abs(o.numpy() - r))) > ALIAS_TOL * sc:
+                bad(f"{name}: result #{i} (kept while the operator was applied again) no longer equals the dense reference")
+        if nest is not None:
+            r2 = ref(refs[0])
+            sc = max(1.0, float(np.max(np.abs(r2))))
+            if tuple(nest.shape) != r2.shape or float(np.max(np.abs(nest.numpy() - r2))) > ALIAS_TOL * sc:
+                bad(f"{name}: nested application op(op(x)) differs from the dense reference")
+        ptrs = {}
+        for i, o in enumerate(outs):
+            ptrs.setdefault(_storage_ptr(o), []).append(f"result#{i}")
+        for i, x in enumerate(inputs):
+            ptrs.setdefault(_storage_ptr(x), []).append(f"input#{i}")
+        if holder is not None:
+            for k, t in _obj_tensors(holder).items():
+                ptrs.setdefault(_storage_ptr(t), []).append(f"operator.{k}")
+        for names in ptrs.values():
+            if len(names) > 1 and any(n.startswith("result") for n in names):
+                bad(f"{name}: tensors share storage: {names}")
+
+    om, de, ph, U = _tensors(c)
+    cs, sn = [math.cos(p) for p in c["phis"]], [math.sin(p) for p in c["phis"]]
+    sx = np.array([[0, 1], [1, 0]], dtype=complex)
+    sy = np.array([[0, -1j], [1j, 0]], dtype=complex)
+    nn = np.array([[0, 0], [0, 1]], dtype=complex)
+    hq = lambda q: (c["omega"][q] / 2.0) * (cs[q] * sx + sn[q] * sy) - c["delta"][q] * nn
+    H = dense_H(c, hq)
+    vecs = [torch.tensor([cplx(p) for p in v], dtype=torch.complex128) for v in c["vecs"]]
+    h = hm.RydbergHamiltonian(omegas=om, deltas=de, phis=ph, interaction_matrix=U, device="cpu")
+    run_family("RydbergHamiltonian.__mul__", lambda v: h * v, vecs, lambda v: H @ v, holder=h)
+    # expect twice on the same object
+    es = [float(h.expect(StateVector(v.clone(), gpu=False))) for v in vecs]
+    for i, (e, v) in enumerate(zip(es, vecs)):
+        r = float(np.vdot(v.numpy(), H @ v.numpy()).real)
+        if abs(e - r) > ALIAS_TOL * max(1.0, abs(r)):
+            bad(f"RydbergHamiltonian.expect: value #{i} wrong when the operator object is reused")
+    # derivative operators (batched vectors)
+    batch = [torch.stack([vecs[0], vecs[1]]), torch.stack([vecs[2], vecs[0]])]
+    k = N - 1
+    dO = te.DHDOmegaSparse(k, "cpu", N, ph[k])
+    SO = 0.5 * (cs[k] * sx + sn[k] * sy)
+    run_family("DHDOmegaSparse.__matmul__", lambda b: dO @ b, batch, lambda b: b @ _site(np, SO, k, N).T, holder=dO)
+    dP = te.DHDPhiSparse(k, "cpu", N, om[k], ph[k])
+    SP = 0.5 * c["omega"][k] * (math.cos(c["phis"][k] + math.pi / 2) * sx + math.sin(c["phis"][k] + math.pi / 2) * sy)
+    run_family("DHDPhiSparse.__matmul__", lambda b: dP @ b, batch, lambda b: b @ _site(np, SP, k, N).T, holder=dP)
+    dD = te.DHDDeltaSparse(0, N)
+    run_family("DHDDeltaSparse.__matmul__", lambda b: dD @ b, batch, lambda b: b @ (-_site(np, nn, 0, N)).T, holder=dD)
+    if N >= 2:
+        dU = te.DHDUSparse(0, N - 1, N)
+        NU = _site(np, nn, 0, N) @ _site(np, nn, N - 1, N)
+        run_family("DHDUSparse.__matmul__", lambda b: dU @ b, batch, lambda b: b @ NU.T, holder=dU)
+    # batched 2x2 matmul
+    op = torch.tensor([[cplx(x) for x in r] for r in c["mm_op"]], dtype=torch.complex128)
+    xs = [v.view(-1, 2, 1) if N == 1 else v.view(2, 2, -1) for v in vecs]
+    run_family("matmul_2x2_with_batched", lambda x: matmul_2x2_with_batched(op, x), xs,
+               lambda x: op.numpy() @ x)
+    if c["rhos"] is not None:
+        Ls = [torch.tensor([[cplx(x) for x in r] for r in m], dtype=torch.complex128) for m in c["Ls"]]
+        rhos = [torch.tensor([[cplx(x) for x in r] for r in m], dtype=torch.complex128) for m in c["rhos"]]
+        lind = lo.RydbergLindbladian(omegas=om, deltas=de, phis=ph, pulser_lindblads=Ls, interaction_matrix=U,
+                                     device="cpu")
+        Lsn = [L.numpy() for L in Ls]
+        S = -0.5j * sum((L.conj().T @ L for L in Lsn), np.zeros((2, 2), dtype=complex))
+        Heff = H + sum(_site(np, S, q, N) for q in range(N))
+        Lq = [_site(np, L, q, N) for q in range(N) for L in Lsn]
+
+        def G(X):   # what the code computes for ANY X (C06_lindblad_apply_general)
+            Y = Heff @ X
+            return Y - Y.conj().T + 1j * sum(M @ X @ M.conj().T for M in Lq)
+
+        run_family("RydbergLindbladian.__matmul__", lambda r: lind @ r, rhos, G, holder=lind)
+        St = compute_noise_from_lindbladians(Ls)
+        run_family("RydbergLindbladian.h_eff", lambda r: lind.h_eff(r, St), rhos, lambda X: Heff @ X, holder=lind)
+    ok = not problems
+    if problems and report:
+        ctx.violation("operator application is not pure (result aliased / input modified / nested application fails): "
+                      + "; ".join(problems[:4]),
+                      {"case": c, "finding_key": "operator-result-aliased", "problems": problems})
+    return ok, None
+
+
+
 def corpus_cases():
     p = common.VERIF / "corpus" / "C06.json"
     return json.loads(p.read_text()) if p.exists() else []
@@ -567,6 +736,10 @@ def run(ctx):
             cases.append(dict(gen_lind_case(rng, N, mode, nj=rng.randint(0, 6 if N < 7 else 3)), tie=False))
     for _ in range(ctx.n(30, 300)):
         cases.append(gen_mm_case(rng))
+    # --- aliasing / purity stream (same operator object reused, nested applications)
+    for N in range(1, (7 if th else 5) + 1):
+        for i in range(ctx.n(2, 6)):
+            cases.append(gen_alias_case(rng, N, real_path=(i % 2 == 0)))
     # --- precision / dtype stream (generic floats, oracle only: float rounding is outside the model)
     for N in range(1, (8 if th else 6) + 1):
         for i in range(ctx.n(2, 10) if N <= 5 else ctx.n(1, 3)):
@@ -579,9 +752,9 @@ def run(ctx):
         ok, data = check_case(ctx, c)
         key = f"{c['kind']}/N={c.get('N', '-')}/{c.get('mode', '-')}"
         hist[key] = hist.get(key, 0) + 1
-        nontrivial = c["kind"] == "matmul" or (c["N"] >= 2 and any(c["omega"]) and (c["kind"] in ("ham", "fprec") or c["Ls"]))
-        ctx.count_case({k: c[k] for k in c if k not in ("vec", "rho", "mm")} | {"oracle_ok": ok}, nontrivial)
-        if not model_ok or c["kind"] == "fprec":
+        nontrivial = c["kind"] == "matmul" or (c["N"] >= 2 and any(c["omega"]) and (c["kind"] in ("ham", "fprec", "alias") or c["Ls"]))
+        ctx.count_case({k: c[k] for k in c if k not in ("vec", "rho", "mm", "vecs", "rhos")} | {"oracle_ok": ok}, nontrivial)
+        if not model_ok or c["kind"] in ("fprec", "alias"):
             continue
         exact = c.get("mode") != "true"
         if c["kind"] == "ham":
